@@ -1,5 +1,7 @@
 import Props.C01
-import Model.Define
+import Props.C06
+import Lemmas.DefFrame
+import Lemmas.Static
 /-!
 # C12 — value precedence is command line over environment variable over default
 -/
@@ -89,6 +91,96 @@ theorem cli_overrides_env (lower : Bool) (o₁ o₂ : Opt) (v : Str)
     have hg2 : validGate o₂ [v] = false := by simpa [validGate, hvv] using hg'
     rw [save_invalid ext lower o₁ v hg', save_invalid ext lower o₂ v hg2]; rfl
 
+/-! ## whole program: definition script, environment, command line -/
+
+variable (mode : Mode)
+
+/-- **What the parser starts from.**  In every accepted definition script, the record an option constructor
+produced — the fresh record (declared default, not called) with its modifiers applied in call order, `GetEnv`
+reading the environment at that moment — is still that option's record after the whole script: no later
+(or earlier) definition call touches it. -/
+theorem definition_record (env : Env) (root : Str) (pre post : List DefOp) (hd : Nat) (kind : Kind) (name : Str)
+    (dflt : Val) (dstr : Str) (min max : Int) (mods : List Mod) (st : BState)
+    (h : buildB ext env root (pre ++ [.opt hd kind name dflt dstr min max mods] ++ post) = .ok st) :
+    ∃ mid, buildB ext env root pre = .ok mid ∧
+      st.P.opt mid.P.opts.length = mods.foldl (modEffect ext env) (freshOpt kind name dflt dstr min max) :=
+  defined_record_final ext env root pre post hd kind name dflt dstr min max mods st h
+
+/-- **Environment over default, end to end.**  Program = any accepted script in which the option is declared with
+`GetEnv(var)`; command line = anything that does not mention the option (at any level, by name, alias or
+abbreviation).  After the whole parse the option record is exactly what `GetEnv` made of the declared record:
+by `env_empty`/`env_bool`/`env_string`/`env_int`/`env_float` that is the declared default with `Called` false
+when the variable is unset, empty or not valid text for the type, and otherwise the variable's value with
+`Called` true and `CalledAs` the variable's name. -/
+theorem env_or_default_after_parse (env : Env) (root : Str) (pre post : List DefOp) (hd : Nat) (kind : Kind)
+    (name : Str) (dflt : Val) (dstr : Str) (min max : Int) (var : Str) (st : BState) (args : List Str)
+    (h : buildB ext env root (pre ++ [.opt hd kind name dflt dstr min max [.getEnv var]] ++ post) = .ok st) :
+    ∃ mid, buildB ext env root pre = .ok mid ∧
+      (¬ Mentioned mode st.P args mid.P.opts.length →
+        (parseArgs ext mode st.P args).P.opt mid.P.opts.length =
+          applyGetEnv ext env (freshOpt kind name dflt dstr min max) var) := by
+  obtain ⟨mid, h1, h2⟩ := defined_record_final ext env root pre post hd kind name dflt dstr min max [.getEnv var] st h
+  refine ⟨mid, h1, fun hnm => ?_⟩
+  rw [unmentioned_keeps_default ext mode st.P args _ hnm, h2]
+  rfl
+
+/-- … instantiated for a string option: variable set ⇒ its text, `Called`, `CalledAs = var`; variable unset or
+empty ⇒ the declared default, not called. -/
+theorem env_string_after_parse (env : Env) (root : Str) (pre post : List DefOp) (hd : Nat) (kind : Kind)
+    (name : Str) (d : Str) (dstr : Str) (min max : Int) (var : Str) (st : BState) (args : List Str)
+    (hk : kind.isString = true)
+    (h : buildB ext env root (pre ++ [.opt hd kind name (.s d) dstr min max [.getEnv var]] ++ post) = .ok st) :
+    ∃ mid, buildB ext env root pre = .ok mid ∧
+      (¬ Mentioned mode st.P args mid.P.opts.length →
+        let o := (parseArgs ext mode st.P args).P.opt mid.P.opts.length
+        (getenv env var ≠ [] → o.value = .s (getenv env var) ∧ o.called = true ∧ o.usedAlias = var) ∧
+        (getenv env var = [] → o.value = .s d ∧ o.called = false)) := by
+  obtain ⟨mid, h1, h2⟩ := env_or_default_after_parse ext mode env root pre post hd kind name (.s d) dstr min max var st args h
+  refine ⟨mid, h1, fun hnm => ?_⟩
+  have e := h2 hnm
+  simp only
+  rw [e]
+  constructor
+  · intro hne
+    rw [env_string ext env _ var (by simpa [freshOpt] using hk) hne (by simp [freshOpt])]
+    exact ⟨rfl, rfl, rfl⟩
+  · intro he
+    rw [env_empty ext env _ var he]
+    exact ⟨rfl, rfl⟩
+
+/-- **Command line over environment, end to end.**  Same program; the command line gives the option as
+`--name=v` at a head position (resolved exactly, by alias or unique abbreviation) and does not mention it
+afterwards: after the whole parse the option reads what `v` converts to, is called and `CalledAs` is the key
+used — the record is the one `Save` makes from the *matched* record, and by `cli_overrides_env` its value does not
+depend on what the environment had put there. -/
+theorem cli_over_env_after_parse (P : Prog) (pre post : List Str) (name v key : Str) (oid : Nat)
+    (he : (run ext mode P pre).err = none) (hc : (run ext mode P pre).ctx = .idle)
+    (hn : name ≠ []) (hne : ∀ c ∈ name, c ≠ chEq) (hv : v ≠ [])
+    (hr : resolve (P.node (run ext mode P pre).cur) name = [key])
+    (hl : lookup key (P.node (run ext mode P pre).cur).opts = some oid)
+    (hoid : oid < P.opts.length)
+    (hk : (P.opt oid).kind.isString = true) (hvv : (P.opt oid).validValues = [])
+    (hmax : (P.opt oid).max ≤ 1)
+    (hpost : ¬ Mentioned mode P post oid) :
+    let o := (parseArgs ext mode P (pre ++ (chDash :: chDash :: (name ++ chEq :: v)) :: post)).P.opt oid
+    o.value = .s v ∧ o.called = true ∧ o.usedAlias = key := by
+  have hsh := run_shape ext mode P pre
+  have hkind : ((run ext mode P pre).P.opt oid).kind = (P.opt oid).kind ∧
+      ((run ext mode P pre).P.opt oid).validValues = (P.opt oid).validValues ∧
+      ((run ext mode P pre).P.opt oid).max = (P.opt oid).max := by
+    have := run_static ext mode P pre oid
+    exact ⟨this.1, this.2.1, this.2.2⟩
+  have hm : (matched (run ext mode P pre) oid key).kind.isString = true := by
+    simp only [matched]; rw [hkind.1]; exact hk
+  have hg : validGate (matched (run ext mode P pre) oid key) [v] = true := by
+    simp [validGate, matched, hkind.2.1, hvv]
+  have hs := save_string ext (P.node 0).mapKeysToLower (matched (run ext mode P pre) oid key) v hm hg
+  have := attached_value_is_final ext mode P pre post name v key oid _ he hc hn hne hv hr hl hoid hs
+    (by simp only [matched]; rw [hkind.2.2]; exact hmax) hpost
+  simp only
+  rw [this]
+  exact ⟨rfl, rfl, rfl⟩
+
 /-! Non-vacuity: default, environment, command line on a bound string and a bound bool. -/
 def envScript : List DefOp := [
   .opt 0 .str (b "host") (.s (b "def")) [] 0 0 [.getEnv (b "HOST")],
@@ -107,5 +199,10 @@ example : ((parseArgs Demo.ext .normal (envProg []) []).P.opt 0).value = .s (b "
           ((parseArgs Demo.ext .normal (envProg [(b "DBG", b "yes")]) []).P.opt 1).called = false ∧
           ((parseArgs Demo.ext .normal (envProg [(b "PORT", b "12x")]) []).P.opt 2).value = .i 80 ∧
           ((parseArgs Demo.ext .normal (envProg [(b "PORT", b "")]) []).P.opt 2).called = false := by decide
+
+-- the hypotheses of the end-to-end theorems are met by this script (option 0 = `host`, bound to HOST)
+example : ((buildB Demo.ext [(b "HOST", b "e")] (b "p")
+    ([] ++ [.opt 0 .str (b "host") (.s (b "def")) [] 0 0 [.getEnv (b "HOST")]] ++ envScript.tail)).toOption.map
+      (·.P.opts.length)) = some 3 := by decide
 
 end GoModel
